@@ -118,6 +118,12 @@ func exploreScenario(res *vout.Result, prop, scenario string, params map[string]
 	if e.Executions > 0 && len(outcomes) > 0 {
 		res.Max("distinct_outcomes_in_one_scenario", int64(len(outcomes)))
 	}
+	if tot, ops := ImpureReport(); tot > 0 {
+		res.Max("impure_ops_total", int64(tot))
+		for _, o := range ops {
+			res.Note("impure op (unmanaged goroutine during exploration): %s", o)
+		}
+	}
 	*item += 1000003 // decorrelate owners between scenarios
 	return e.Executions
 }
